@@ -23,6 +23,7 @@ pub mod c17;
 pub mod c18;
 pub mod c19;
 pub mod c20;
+pub mod deep;
 
 pub type MonFn = fn(&mut Ctx);
 
@@ -40,6 +41,10 @@ pub fn registry() -> Vec<(&'static str, &'static str, MonFn)> {
         ("c04_rand", "C04", c04::random as MonFn),
         ("c09_exh", "C09", c09::exhaustive as MonFn),
         ("c09_rand", "C09", c09::random as MonFn),
+        ("c04_defaults", "C04", c04::defaults as MonFn),
+        ("c02_deep", "C02", deep::connectives as MonFn),
+        ("c04_deep", "C04", deep::quant as MonFn),
+        ("c09_deep", "C09", deep::sets as MonFn),
         ("c03_hist", "C03", c03::histories as MonFn),
         ("c05_hist", "C05", c05::histories as MonFn),
         ("c05_bg", "C05", c05::background_gc as MonFn),
